@@ -7,6 +7,7 @@ if [ ! -d $L/repo ]; then
   mkdir -p $L; git -C /repo worktree add -q --detach $L/repo HEAD
 fi
 git -C $L/repo checkout -q -- . && git -C $L/repo clean -fdq
+git -C $L/repo checkout -q --detach "$(git -C /repo rev-parse HEAD)"   # always the current /repo HEAD
 [ "$P" != "-" ] && git -C $L/repo apply "$P"
 rsync -a --delete --exclude out --exclude build --exclude .git --exclude seeded --exclude mutsweep/results.jsonl /verif/ $L/verif/
 sed -i "s|=> /repo|=> $L/repo|" $L/verif/harness/go.mod
